@@ -1,6 +1,6 @@
 #include "slu_mt_@p@defs.h"
 #include "drv_ghost.h"
-int_t g_j, g_bi, g_bj;
+int_t g_j, g_bi, g_bj, g_c; @T@ g_B0[CAP*2], g_X0[CAP*2];
 int_t in_nprocs; superlumt_options_t in_o; SuperMatrix in_A, in_L, in_U, in_B, in_X; NCformat in_Astore; DNformat in_Bstore, in_Xstore;
 int_t in_perm_c[CAP], in_perm_r[CAP]; equed_t in_equed; @R@ in_R[CAP], in_C[CAP]; @T@ in_Bval[CAP*2], in_Xval[CAP*2];
 @R@ in_rpg, in_rcond, in_ferr[2], in_berr[2]; superlu_memusage_t in_mu; int_t in_info;
